@@ -17,6 +17,9 @@ use std::sync::Mutex;
 
 const BOUND: i32 = 20_000;
 
+/// (halfmove clock, fullmove number) pairs every state is re-evaluated with
+const COUNTERS: [(u8, u16); 6] = [(0, 1), (41, 41), (99, 120), (100, 200), (150, 300), (255, 5949)];
+
 const DIRTY: [&str; 3] = [
     "rnbqkbnr/pppppppp/8/8/8/8/PPPPPPPP/RNBQKBNR w KQkq - 0 1",
     "qqqqkqqq/qq6/8/8/8/8/QQ6/QQQQKQQQ b - - 0 1",
@@ -87,6 +90,22 @@ impl<'a> EvalCheck<'a> {
                 vec![],
                 J::Null,
             );
+        }
+        // the move counters are not part of "piece placement and side to move"
+        for (hm, fm) in COUNTERS {
+            let mut c = *b;
+            c.halfmove_clock = hm;
+            c.fullmove_counter = fm;
+            let v = eval_fresh(&c);
+            if v != Ok(fresh) {
+                self.rep.violation(
+                    format!("C14 fen={} counters", fen),
+                    format!("evaluate({:?}) = {} with the board's own counters but {:?} with halfmove clock {} / fullmove number {}", fen, fresh, v, hm, fm),
+                    vec!["c14-one".into(), "--fen".into(), fen.to_string()],
+                    J::Null,
+                );
+                break;
+            }
         }
         // bound
         if fresh.abs() > BOUND {
@@ -254,8 +273,48 @@ pub fn run(tier: &str, seed: u64, out: &str) {
     });
     sequences += seq_counts.iter().sum::<u64>();
 
+    // ---- history dependence triggered by a material class: one position per material
+    // signature (per side: 0-1 queens, 0-2 rooks, 0-1 light and 0-1 dark bishops, 0-2 knights,
+    // 0 or 3 pawns; both sides to move) is evaluated first, then a battery of probe positions on
+    // the same evaluator (and the other way round); every score must equal the fresh one
+    let sigs = signature_positions();
+    let probes: Vec<Board> = SEQ_FENS.iter().step_by(2).map(|f| eng::board_of_fen(f).expect("probe FEN")).collect();
+    let probe_fresh: Vec<i32> = probes.iter().map(|b| Evaluator::new().evaluate(b)).collect();
+    let sig_counts: Vec<u64> = par_map(&sigs, |(p, b)| {
+        if rep.saturated() {
+            return 0;
+        }
+        let own = match eval_fresh(b) {
+            Ok(v) => v,
+            Err(_) => return 0,
+        };
+        let r = guard(|| {
+            let mut e = Evaluator::new();
+            let first = e.evaluate(b);
+            let after: Vec<i32> = probes.iter().map(|q| e.evaluate(q)).collect();
+            let again = e.evaluate(b);
+            (first, after, again)
+        });
+        match r {
+            Ok((first, after, again)) if first == own && again == own && after == probe_fresh => {}
+            other => {
+                rep.violation(
+                    format!("C14 signature {} history", p.fen4()),
+                    format!("one evaluator called on {:?} and then on the {} probe positions and on {:?} again returned {:?}; fresh evaluators return ({}, {:?}, {})", p.fen4(), probes.len(), p.fen4(), other, own, probe_fresh, own),
+                    vec!["c14-sig".into(), "--fen".into(), p.fen4()],
+                    J::Null,
+                );
+            }
+        }
+        2 + probes.len() as u64
+    });
+    let sig_evals: u64 = sig_counts.iter().sum();
+    eprintln!("[C14] material signatures: {} positions x {} probes ({:.1}s)", sigs.len(), probes.len(), rep.elapsed());
+
     let states = ec.states.load(Ordering::Relaxed);
     let cov = J::obj()
+        .set("material_signature_history", J::obj().set("signature_positions", sigs.len()).set("probe_positions", probes.len()).set("evaluations", sig_evals).set("rule", "per side 0-1 queens, 0-2 rooks, 0-1 light-squared and 0-1 dark-squared bishops, 0-2 knights, 0 or 3 pawns, both sides to move: every combination as one position; one evaluator evaluates it, then every probe, then it again; all scores equal the fresh ones"))
+        .set("counter_pairs_per_state", COUNTERS.len())
         .set("states", states)
         .set("transitions", gs.transitions)
         .set("traces_validated_against_impl", states)
@@ -307,6 +366,94 @@ pub fn replay_one(fen: &str) -> i32 {
         println!("REPLAY-OK C14 {}", fen);
         0
     } else {
+        1
+    }
+}
+
+/// One position per material signature (see `run`).
+pub fn signature_positions() -> Vec<(Pos, Board)> {
+    use crate::refchess::{Kind, Side};
+    let mut out = Vec::new();
+    let side_sets = |side: Side| -> Vec<Vec<(Side, Kind, u8)>> {
+        // squares for white; black uses the mirror (rank flipped)
+        let f = |s: u8| if side == Side::W { s } else { s ^ 56 };
+        let mut v = Vec::new();
+        for q in 0..=1 {
+            for r in 0..=2 {
+                for bl in 0..=1 {
+                    for bd in 0..=1 {
+                        for n in 0..=2 {
+                            for pw in [0, 3] {
+                                let mut men = vec![(side, Kind::K, f(4))];
+                                if q == 1 {
+                                    men.push((side, Kind::Q, f(3)));
+                                }
+                                for (i, s) in [0u8, 7].iter().enumerate() {
+                                    if i < r {
+                                        men.push((side, Kind::R, f(*s)));
+                                    }
+                                }
+                                // f1 is a light square, c1 a dark one (for black: c8 light, f8 dark)
+                                let (light, dark) = if side == Side::W { (5u8, 2u8) } else { (58u8, 61u8) };
+                                if bl == 1 {
+                                    men.push((side, Kind::B, light));
+                                }
+                                if bd == 1 {
+                                    men.push((side, Kind::B, dark));
+                                }
+                                for (i, s) in [1u8, 6].iter().enumerate() {
+                                    if i < n {
+                                        men.push((side, Kind::N, f(*s)));
+                                    }
+                                }
+                                for i in 0..pw {
+                                    men.push((side, Kind::P, f(8 + i as u8)));
+                                }
+                                v.push(men);
+                            }
+                        }
+                    }
+                }
+            }
+        }
+        v
+    };
+    let w = side_sets(Side::W);
+    let b = side_sets(Side::B);
+    for wm in &w {
+        for bm in &b {
+            for stm in [Side::W, Side::B] {
+                let mut p = Pos::empty();
+                for (s, k, sq) in wm.iter().chain(bm.iter()) {
+                    p.sq[*sq as usize] = Some((*s, *k));
+                }
+                p.stm = stm;
+                if p.is_valid() {
+                    if let Ok(bd) = eng::board_of(&p) {
+                        out.push((p, bd));
+                    }
+                }
+            }
+        }
+    }
+    out
+}
+
+pub fn replay_sig(fen: &str) -> i32 {
+    let p = Pos::from_fen(fen).unwrap();
+    let b = eng::board_of(&p).unwrap();
+    let probes: Vec<Board> = SEQ_FENS.iter().step_by(2).map(|f| eng::board_of_fen(f).unwrap()).collect();
+    let probe_fresh: Vec<i32> = probes.iter().map(|b| Evaluator::new().evaluate(b)).collect();
+    let own = Evaluator::new().evaluate(&b);
+    let mut e = Evaluator::new();
+    let first = e.evaluate(&b);
+    let after: Vec<i32> = probes.iter().map(|q| e.evaluate(q)).collect();
+    let again = e.evaluate(&b);
+    if first == own && again == own && after == probe_fresh {
+        println!("REPLAY-OK C14 signature {}", fen);
+        0
+    } else {
+        println!("REPLAY-VIOLATION C14 signature {}: ({}, {:?}, {}) vs fresh ({}, {:?}, {})", fen, first, after, again, own, probe_fresh, own);
         1
     }
 }
